@@ -16,7 +16,8 @@ from ..ref import inventory as INV
 TEXT_STYLES = [s for s in S.STYLES]
 NAMES = ["main", "util", "mod", "with space", "ünï", "data", "x-y_z", "README", "日本"]
 # (one directory whose files have paths of more than 80 columns, with blanks and hyphens in them)
-DIRS = ["", "", "src", "src/sub", "docs", "a b", "a long directory name - with blanks and hyphens/that goes on for more than eighty columns - really"]
+# (and one whose name is spelled with a combining accent, i.e. not in Unicode normal form C)
+DIRS = ["", "", "src", "src/sub", "docs", "a b", "cafe\u0301-ordner/deep", "a long directory name - with blanks and hyphens/that goes on for more than eighty columns - really"]
 DEFECTS = ["strip-cop", "strip-lic", "drop-licence-text", "unused-text", "junk-text", "unknown-id", "deprecated-text", "no-extension",
            "unreadable", "bad-expression", "wrong-case-id", "empty-licence-tag"]
 
